@@ -26,6 +26,20 @@ claimed.update({
  'C02': dict(text="Bounded symbolic model checking of LoadCurrentState / LoadState, State.Verify, VerifyNewState(Metadata) and the in-range policy branch of VerifyRelativeForRef: a successor policy state written straight to the policy ref with any declared root principals, root threshold, any subset of old and new keys signing, unconstrained 64-bit root and rule-file versions and a rule-file variant (proper, forged, missing, delegated file dropped, unreachable file); reference entries before and/or after it; verification mode full / latest-only / from-entry / mergeability; an invalid successor must fail every mode that depends on it and LoadCurrentState errs iff the chain is invalid.",
              note="One successor state (two policy states) per run; controller metadata and WithInitialRootPrincipals are outside the check.", ref="DESIGN.md section 4 C02"),
 })
+claimed.update({
+ 'C07': dict(text="Bounded symbolic model checking of the real recovery logic (VerifyRefFull -> VerifyRelativeForRef incl. the fix search and the deferred queue, rsl range/latest readers, ReferenceEntry.SkippedBy) with the real per-entry verification: after a valid first entry, up to 2 (thorough 3) slots of pushes to the branch by a symbolic signer (authorised, de-authorised by an interleaved policy update, never authorised) restoring one of two trees, each optionally followed by an annotation revoking any subset of earlier entries; the verdict equals a transcription of the property's recovery rules.",
+             note="A violation in the very first entry for a reference is outside the statement and the check; attestation entries are not interleaved; crypto/JSON/storage models as stated.", ref="DESIGN.md section 4 C07"),
+ 'C08': dict(text="Bounded symbolic model checking of cache independence over the real cacheSearcher, cache.Persistent, PopulatePersistentCache and the cache writes of VerifyRelativeForRef: histories of up to 2 (thorough 3) slots (pushes by symbolic signers, a de-authorising policy update) interleaved with cache actions (populate, full verification, latest-only verification); the final verdict and tip with the cache left behind equal those with the cache removed, repeated verification agrees, and no reference but the cache reference changes. The stale-cache defect is reported as a KNOWN-FINDING with a solver witness.",
+             note="The process-wide rsl entry cache is reset per explored path; checkpoints arise only through earlier verifications in the same history.", ref="DESIGN.md section 4 C08"),
+ 'C09': dict(text="Bounded symbolic model checking of reference authorizations in the real verification path (getApproverAttestationAndKeyIDs(ForIndex), Attestations.GetReferenceAuthorizationFor, authorizations v0.2 Validate, LoadAttestationsForEntry, SignatureVerifier.Verify on the authorization envelope): a threshold-2/3 rule, up to 2 authorizations whose statement may name another ref/from/to, stored at the exact path, at their own path or elsewhere, with one symbolic signature slot per key, recorded before or after the entry, and a symbolic pusher; accept iff the principals counted for this exact change reach the threshold.",
+             note="Code-review (GitHub app) approvals are NOT covered: their payloads are decoded from JSON into a different Go type than the one marshalled, which the JSON round-trip model cannot express (see DESIGN.md); tags are not covered.", ref="DESIGN.md section 4 C09"),
+ 'C12': dict(text="Bounded symbolic model checking of policy.Apply, Discard, State.Commit, ReconcileStaging, LoadCurrentState and State.Verify over sequences of up to 2 (thorough 3) operations (stage a valid / under-threshold / rolled-back / foreign-root successor, apply, discard, move the policy ref behind gittuf's back): the policy ref moves only inside a successful Apply, only to the staged tip, which descends from the old tip, is a valid successor, and is the target of the log entry appended by the same call; refused Apply leaves the ref; published states load.",
+             note="The experimental/gittuf API layer (loadRootMetadata, isKeyAuthorized and the individual mutator commands) is outside the check: it is bound to gitinterface.Repository rather than gitstore.Storer.", ref="DESIGN.md section 4 C12"),
+ 'C16': dict(text="Solver-decided fault enumeration over the real recorders: for the operations the property lists that are available on a Storer (record a reference entry, annotation, State.Commit to staging, Apply) from an empty and an established repository, the index k of the failing storage call is a symbolic integer compared with the store's call counter; after the fault: error reported, log a valid chain, managed refs unchanged or in step with the log, and a retry reaches the uninterrupted state (up to commit ids).",
+             note="Crash (abandon) mode, Attestations.Commit and ReconcileStaging as stand-alone operations are not yet covered; a failed read of the optional local cache reference may be tolerated by the operation (then it must still reach the uninterrupted state).", ref="DESIGN.md section 4 C16"),
+ 'C19': dict(text="Bounded symbolic model checking of VerifyMergeable / verifyMergeable against the real VerifyRefFull of the recorded merge: thresholds 1..3, an optional exact authorization with one symbolic signature slot per key, a fast-forward merge recorded by a symbolic candidate (any key, unknown key, unsigned); 'no signature needed' implies it verifies for every recorder, 'signature needed' iff the recorder is a not-yet-counted authorised principal, 'not possible' implies it verifies for none (known threshold-1 finding reported with a witness).",
+             note="Merge commits (non fast-forward), file rules, global rules and code-review approvals are not in this menu.", ref="DESIGN.md section 4 C19"),
+})
 reasons = {
  'C20': "hook sandbox confinement/timeouts concern the gopher-lua VM and wall-clock deadlines, which cannot be encoded in SMT through the Go SSA interpreter (DESIGN.md section 4, C20)",
 }
